@@ -8,7 +8,7 @@ From Coq Require Import List NArith ZArith Bool.
 From Coq Require Import Init.Byte.
 From FFS Require Import Base.Res Base.Bytes Abi.Spec.
 From FFS Require Import Eip712.Util Eip712.Input Eip712.Numeric Eip712.Coerce Eip712.Model.
-From FFS Require Import Eip712.TotalProofsInput Eip712.TotalProofs Eip712.TotalProofsFuel Eip712.NumericProofs Eip712.SpellingProofs Eip712.SpellingDocProofs.
+From FFS Require Import Eip712.TotalProofsInput Eip712.TotalProofs Eip712.TotalProofsFuel Eip712.NumericProofs Eip712.SpellingProofs Eip712.SpellingDocProofs Eip712.SpellingDocOptProofs.
 Import ListNotations.
 
 (* 1. Totality.  Any JSON tree offered as the document — decoded into a TypedData value and hashed,
@@ -90,6 +90,19 @@ Theorem C14_spellings_agree_document :
 Proof. exact EncodeTypedDataV4_respelled. Qed.
 Print Assumptions C14_spellings_agree_document.
 
+(*    ... the same for documents that omit the domain and/or the message (or give them as null): the
+      decoded payload then has a nil map there; [opt_members_rel] = both absent, or both present and
+      related as above.  (Round 3; removes the restriction of the statement above.) *)
+Theorem C14_spellings_agree_document_any :
+  forall H big_other types primary od1 od2 om1 om2,
+    let ts := effective_types types in
+    opt_members_rel ts (members_of (tget EIP712Domain ts)) od1 od2 ->
+    opt_members_rel ts (members_of (tget primary ts)) om1 om2 ->
+    EncodeTypedDataV4 H big_other (Some (mkTD types primary od1 om1)) =
+    EncodeTypedDataV4 H big_other (Some (mkTD types primary od2 om2)).
+Proof. exact EncodeTypedDataV4_respelled_opt. Qed.
+Print Assumptions C14_spellings_agree_document_any.
+
 (* 3. Never a different value.  Whatever value sits at an integer member: if it is encoded at all,
       the coercion read an integer z from it, z is in range of the type and the bytes are the word of
       z; and for a text in the decimal / hex / scientific grammars (every JSON number is) z is exactly
@@ -136,6 +149,16 @@ Example C14_nonvacuous_document :
   members_rel (respelled ts (fuel_of (GMap ex_m1))) (members_of (tget (bs "A") ts)) ex_m1 ex_m2 /\
   ex_m1 <> ex_m2.
 Proof. exact respelled_documents. Qed.
+
+(* ... and of the statement for documents without a domain / without a message *)
+Example C14_nonvacuous_document_any :
+  let ts := effective_types (Some ex_types) in
+  opt_members_rel ts (members_of (tget EIP712Domain ts)) None None /\
+  opt_members_rel ts (members_of (tget (bs "A") ts)) (Some ex_m1) (Some ex_m2) /\
+  opt_members_rel ts (members_of (tget EIP712Domain ts)) (Some ex_d1) (Some ex_d2) /\
+  opt_members_rel ts (members_of (tget EIP712Domain ts)) None None /\
+  ex_m1 <> ex_m2 /\ ex_d1 <> ex_d2.
+Proof. exact respelled_documents_opt. Qed.
 
 (* the signer hypothesis of C14_total is satisfiable *)
 Example C14_signer_in_range_example : signer_in_range (fun _ => Some (1, 2 ^ 255, 27)%Z).
